@@ -72,6 +72,7 @@ struct ProcFs {
   int swappiness = 60;
   std::set<std::string> absent;
   std::set<std::string> empty;
+  std::set<std::string> drop_meminfo; // keys not rendered into meminfo
   std::map<std::string, std::string> raw;
   std::map<std::string, std::string> rendered;
   int64_t vmstatGet(const std::string& k, int64_t d = 0) const;
